@@ -174,7 +174,7 @@ Section Conv.
         | j =>
             if mem_str j field_names then
               match unwrap (gf_type f) with
-              | GOpaque _ _ _ _ | GEnum _ => dedup_fields r frag_names field_names
+              | GOpaque _ _ _ _ | GEnum _ | GAlias _ => dedup_fields r frag_names field_names
               | GStruct _ | GIface _ => Err (b "duplicate-field")
               | _ => Err (b "unexpected-field-type")
               end
